@@ -10,5 +10,5 @@ for P in "$@"; do
   (cd /verif && VERIF_SEED=${VERIF_SEED:-1} python3 check.py $P --tier ${TIER:-quick} 2>&1 | tail -${TAIL:-6})
   echo "exit=$?"
 done
-git -C /repo checkout -- . 
+git -C /repo checkout -- . ; git -C /repo clean -fdq
 git -C /repo status --short | head -3
